@@ -58,6 +58,13 @@ func runProp(prop string) func(Case) ev.Outcome {
 				out.Excluded = v.Skip
 			}
 			if v.Fail != "" {
+				if why := fixtureDamaged(ex.fixture); why != "" {
+					// a pool plugin lost its connection (seen on machines loaded far beyond their
+					// cores): its contributions are missing from the result although its handler
+					// ran, which is the failing-plugin behaviour C07 describes, not a verdict on
+					// this property. The fixture is rebuilt; the case counts as overloaded.
+					return ev.Outcome{Excluded: "fixture_lost_a_plugin", Overloaded: true, History: map[string]any{"why": why, "would_have_failed": v.Fail}}
+				}
 				out.Fail = v.Fail
 				out.History = vs.History
 				return out
